@@ -1,6 +1,160 @@
+/-
+C05 — Bravyi-Kitaev: property theorems.  `enc = Spec.C05.enc .bk n` is the parity-of-block encoding of
+an occupation mask (defined in the Spec with an arithmetic `lowbit`, no bit tricks);
+`⟨x| Q |e⟩ = GV.coeff (applyOp .qubit Q [e]) [x]` is the Spec's own evaluation (what the oracle
+`c05.bk_check` runs on the implementation's outputs).  Model functions are the ones `ofv-driver`
+executes (`OFV.Model.C05`, mirroring bravyi_kitaev.py).  All statements hold for every number of
+qubits `n` (not only powers of two) and every index.
+-/
 import OFV.Model.C05
 import OFV.Spec.C05
+import OFV.Proofs.C05Term
+import OFV.Proofs.C05Maj
+import OFV.Proofs.C05Srl
 
 namespace OFV.C05
+open OFV OFV.Spec OFV.Model OFV.Model.C05 OFV.Sem OFV.BK
+
+/-- the bit tricks: `index & -index` is the largest power of two dividing `index` (the Spec's
+arithmetic `lowbit`), and `(k + 1) & k` is the start of the block stored on qubit `k`. -/
+theorem bk_bit_tricks (i k : Nat) (hi : 0 < i) :
+    Model.C05.lowbit i = Spec.C05.lowbit i ∧ clearLow i = i - Spec.C05.lowbit i
+      ∧ clearLow (k + 1) = Spec.C05.loBK k := by
+  refine ⟨?_, ?_, clearLow_succ_eq_loBK k⟩
+  · rw [lowbit_eq i hi, spec_lowbit i hi]
+  · rw [clearLow_eq, spec_lowbit i hi]
+
+/-- **`_update_set` is correct for every `n`**: it is exactly the set of qubits `k`, `j < k < n`, whose
+block `[lo k, k]` contains `j` (the qubits to flip besides `j` when mode `j` is flipped). -/
+theorem bk_update_set_correct (j n k : Nat) :
+    k ∈ updateSet j n ↔ (j < k ∧ k < n ∧ Spec.C05.loBK k ≤ j) := by
+  rw [updateSet_mem, ← clearLow_succ_eq_loBK]; rfl
+
+/-- **`_parity_set` is correct**: the encoded bits over `_parity_set(j)` have the parity of the number of
+occupied modes below `j` (every `n`, `j < n`, every occupation mask). -/
+theorem bk_parity_set_correct (n s j : Nat) (hj : j < n) :
+    ((paritySet j).countP fun k => (Spec.C05.enc .bk n s).testBit k) % 2 = countBelow s j % 2 :=
+  paritySet_parity n s j hj
+
+/-- **`_occupation_set` is correct**: the encoded bits over `_occupation_set(j)` have the parity of the
+occupation of mode `j` itself. -/
+theorem bk_occupation_set_correct (n s j : Nat) (hj : j < n) :
+    ((occupationSet j).countP fun k => (Spec.C05.enc .bk n s).testBit k) % 2 = if s.testBit j then 1 else 0 :=
+  occupationSet_parity n s j hj
+
+/-- flipping the qubits of `_update_set(j) ∪ {j}` turns `enc s` into `enc (s with mode j flipped)` -/
+theorem bk_update_flips (n s j : Nat) (hj : j < n) :
+    (insertS j (updateSet j n)).foldr (fun k acc => acc ^^^ (1 <<< k)) (Spec.C05.enc .bk n s)
+      = Spec.C05.enc .bk n (s ^^^ (1 <<< j)) :=
+  enc_flip n s j hj _ (nodup_of_sorted (updateSet'_sorted j n)) (fun k => updateSet'_mem j n k hj)
+
+/-- the encoding is injective on all occupation masks (so it is a relabelling of basis states; the
+all-zero mask is encoded as the all-zero register) -/
+theorem bk_enc_injective (n s s' : Nat) (h : Spec.C05.enc .bk n s = Spec.C05.enc .bk n s') : s = s' :=
+  enc_injective n s s' h
+
+/-- **BK of a term is exact** (`_transform_operator_term`): for every `n`, every product `t` of ladder
+operators on modes `< n` (any length, repetitions), coefficient `c` and occupation masks `s, s'`:
+`⟨enc s'| bk(c·t) |enc s⟩ = ⟨s'| c·t |s⟩` — JW conjugated by the relabelling `enc`, phases included. -/
+theorem bk_term_exact (tol : Rat) (htol : tol * tol ≤ 1 / 4) (n : Nat) (t : List (Nat × Nat))
+    (ht : ∀ f ∈ t, f.1 < n ∧ f.2 ≤ 1) (c : GQ) (s s' : Nat) :
+    GV.coeff (applyOp .qubit (bkTerm tol n t c) [Spec.C05.enc .bk n s]) [Spec.C05.enc .bk n s']
+      = GV.coeff (applyOp .fermion [(t, c)] [s]) [s'] := by
+  change den .qubit _ _ _ = den .fermion _ _ _
+  rw [bkTerm_den tol htol n t ht, den_cons, den_nil, add_zero, termCoef_fermion]
+  cases actFTerm t s with
+  | none => simp
+  | some km =>
+    obtain ⟨k, s''⟩ := km
+    simp only
+    by_cases h : s'' = s'
+    · subst h; simp
+    · have : ¬ Spec.C05.enc .bk n s'' = Spec.C05.enc .bk n s' := fun he => h (enc_injective n _ _ he)
+      simp [h, this]
+
+/-- … and the transformed term maps encoded states to encoded states only: a target `x` that is not an
+encoded mask gets coefficient 0. -/
+theorem bk_term_support (tol : Rat) (htol : tol * tol ≤ 1 / 4) (n : Nat) (t : List (Nat × Nat))
+    (ht : ∀ f ∈ t, f.1 < n ∧ f.2 ≤ 1) (c : GQ) (s x : Nat) (hx : ∀ s', Spec.C05.enc .bk n s' ≠ x) :
+    GV.coeff (applyOp .qubit (bkTerm tol n t c) [Spec.C05.enc .bk n s]) [x] = 0 := by
+  change den .qubit _ _ _ = 0
+  rw [bkTerm_den tol htol n t ht]
+  cases actFTerm t s with
+  | none => rfl
+  | some km => obtain ⟨k, s''⟩ := km; simp [hx s'']
+
+/-- **`bravyi_kitaev(FermionOperator, n)` is exact** for every `n ≥` the operator's size: on every run in
+the exact regime (`bkFermionOk`: no non-zero value deleted by the tolerance test of `+=`; evaluated by the
+driver on every generated input) `⟨enc s'| bk(A) |enc s⟩ = ⟨s'| A |s⟩` for all occupation masks. -/
+theorem bk_exact (tol : Rat) (htol : tol * tol ≤ 1 / 4) (n : Nat) (A : Model.Op)
+    (hA : ∀ tc ∈ A, ∀ f ∈ tc.1, f.1 < n ∧ f.2 ≤ 1) (hok : bkFermionOk tol n A = true) (s s' : Nat) :
+    GV.coeff (applyOp .qubit (bkFermion tol n A) [Spec.C05.enc .bk n s]) [Spec.C05.enc .bk n s']
+      = GV.coeff (applyOp .fermion A [s]) [s'] := by
+  change den .qubit _ _ _ = den .fermion _ _ _
+  have e : bkFermion tol n A = (A.map fun tc => bkTerm tol n tc.1 tc.2).foldl (fun acc img => iadd tol acc img) [] := by
+    unfold bkFermion; rw [List.foldl_map]
+  rw [e, den_sum_ok .qubit tol _ _ _ hok, den_eq_sum, List.map_map]
+  congr 1
+  apply List.map_congr_left
+  intro tc htc
+  have := bk_term_exact tol htol n tc.1 (hA tc htc) tc.2 s s'
+  change den .qubit _ _ _ = den .fermion _ _ _ at this
+  simp only [Function.comp]
+  rw [this, den_cons, den_nil, add_zero]
+
+/-- **BK of a Majorana term is exact** (`_transform_majorana_term`): for every `n` and every list of Majorana
+indices `m` with `m / 2 < n`: `⟨enc s'| bk(c·γ_{m1}…γ_{mk}) |enc s⟩ = ⟨s'| c·γ_{m1}…γ_{mk} |s⟩`. -/
+theorem bk_majorana_term_exact (n : Nat) (t : List Nat) (ht : ∀ m ∈ t, m / 2 < n) (c : GQ) (s s' : Nat) :
+    GV.coeff (applyOp .qubit (bkMajTerm n t c) [Spec.C05.enc .bk n s]) [Spec.C05.enc .bk n s']
+      = GV.coeff (applyOp .majorana [(t.map fun i => (i, 0), c)] [s]) [s'] := by
+  change den .qubit _ _ _ = den .majorana _ _ _
+  rw [bkMajTerm_den n t ht, den_cons, den_nil, add_zero, termCoef_majorana]
+  by_cases h : (actMTerm t s).2 = s'
+  · simp [h]
+  · have : ¬ Spec.C05.enc .bk n (actMTerm t s).2 = Spec.C05.enc .bk n s' := fun he => h (enc_injective n _ _ he)
+    simp [h, this]
+
+/-- **`bravyi_kitaev(MajoranaOperator, n)` is exact** on every exact run -/
+theorem bk_majorana_exact (tol : Rat) (n : Nat) (A : Model.MOp) (hA : ∀ tc ∈ A, ∀ m ∈ tc.1, m / 2 < n)
+    (hok : bkMajoranaOk tol n A = true) (s s' : Nat) :
+    GV.coeff (applyOp .qubit (bkMajorana tol n A) [Spec.C05.enc .bk n s]) [Spec.C05.enc .bk n s']
+      = GV.coeff (applyOp .majorana (A.map fun tc => (tc.1.map fun i => (i, 0), tc.2)) [s]) [s'] := by
+  change den .qubit _ _ _ = den .majorana _ _ _
+  have e : bkMajorana tol n A = (A.map fun tc => bkMajTerm n tc.1 tc.2).foldl (fun acc img => iadd tol acc img) [] := by
+    unfold bkMajorana; rw [List.foldl_map]
+  rw [e, den_sum_ok .qubit tol _ _ _ hok, den_eq_sum, List.map_map, List.map_map]
+  congr 1
+  apply List.map_congr_left
+  intro tc htc
+  have := bk_majorana_term_exact n tc.1 (hA tc htc) tc.2 s s'
+  change den .qubit _ _ _ = den .majorana _ _ _ at this
+  simp only [Function.comp]
+  rw [this, den_cons, den_nil, add_zero]
+
+/-- **the guards of `_seeley_richard_love` are exhaustive**: for every `i` and every `j < n` one of the
+cases 0-10 fires (the combination "`i` even, `j` odd, `i ∈ P(j)`, `j ∉ U(i)`" missing from the `elif`
+chain is impossible: an even `i` in `P(j)` forces `j = i + 1 ∈ U(i)`), so the function never returns
+the two empty lists it would return if no branch fired. -/
+theorem srl_cases_exhaustive (i j n : Nat) (coef : GQ) (hj : j < n) : (srl i j coef n).1 ≤ 10 :=
+  srlTag_le i j n hj
+
+/-! ### non-vacuity -/
+
+example : Generated.eqTolerance * Generated.eqTolerance ≤ 1 / 4 := by
+  unfold Generated.eqTolerance; norm_num [Rat.mkRat_eq_div]
+
+/-- a term on `n = 6` qubits (not a power of two) with repeated modes satisfies `ht` -/
+example : ∀ f ∈ [(5, 1), (2, 0), (5, 0), (3, 1)], f.1 < 6 ∧ f.2 ≤ 1 := by decide
+
+/-- the exact-regime hypothesis of `bk_exact` on a concrete operator with cancelling terms, `n = 5` -/
+example : bkFermionOk Generated.eqTolerance 5
+    [([(4, 1), (1, 0)], ⟨2, 0⟩), ([(1, 0), (4, 1)], ⟨-(mkRat 1 2), 0⟩), ([(2, 1)], ⟨0, 1⟩)] = true := by
+  decide +kernel
+
+/-- every case tag 0..10 is attained (kernel-evaluated on the Model) -/
+example : (((List.range 16).flatMap (fun i => (List.range 16).map fun j => srlTag i j 16)).eraseDups).length = 11 := by
+  decide +kernel
+
+example : ∀ m ∈ [11, 0, 3, 11, 4], m / 2 < 6 := by decide
 
 end OFV.C05
